@@ -137,6 +137,47 @@ def run(tier):
                     chk.fail(f'successive:{kind}:differs', case, f'write #{wn + 1} (source {kind}) differs from a fresh '
                                                                 'specification written from the same data')
                     break
+        # ONE structured array (exactly the frame's fields: the no-copy path) serving several writes with different
+        # windows and chunk sizes: every file must equal the one written from pre-sliced copies taken beforehand
+        for si in range(8 if tier == 'quick' else 80):
+            rows = 6
+            spec = filegen.gen_spec(R, n_lf=1, small=True, rows=rows, vrl=8192, with_index=False, fastpath=True)
+            for lf in spec['lfs']:
+                for o in lf['objects']:
+                    if o['kind'] == 'channel':
+                        o['cast_dtype'] = None
+                        o['layout'] = 'plain'
+            spec['write'].update({'data_kind': 'dict', 'input_chunk_size': None, 'output_chunk_size': 2**20, 'from_idx': 0,
+                                  'to_idx': None})
+            spec['object_routes'] = False
+            windows = [(0, None), (2, 5), (0, 3), (1, None), (0, None)]
+            refs = {}
+            for (lo, hi) in set(windows):
+                ref = filegen.write(sliced(spec, lo, hi if hi is not None else rows), tmp, fname='ref3.dlis')
+                refs[(lo, hi)] = ref['data'] if ref['status'] == 'ok' else None
+            st0, b0 = call(filegen.build, spec)
+            if st0 != 'ok' or any(v is None for v in refs.values()):
+                continue
+            src = filegen.make_source('struct', {k: v.copy() for k, v in b0.data.items()}, {'exact': True, 'tmpdir': tmp})
+            for wn, (lo, hi) in enumerate(windows):
+                stb, b = call(filegen.build, spec)
+                if stb != 'ok':
+                    break
+                ic = R.choice([None, 1, 2, 4])
+                kw = dict(data=src, output_chunk_size=2**20, input_chunk_size=ic, from_idx=lo)
+                if hi is not None:
+                    kw['to_idx'] = hi
+                st, err = call(b.df.write, f'{tmp}/reuse.dlis', **kw)
+                case = {'spec_index': si, 'spec': filegen.describe(spec), 'write_number': wn + 1, 'window': [lo, hi],
+                        'input_chunk_size': ic, 'same_structured_array_object_for_all_writes': True}
+                chk.case('reused-source', nontrivial_key=('reuse', si, wn), sample={'write': wn + 1, 'window': [lo, hi], 'status': st})
+                if st != 'ok':
+                    chk.fail('reused-source:rejected', case, f'write raised {err}')
+                    break
+                if open(f'{tmp}/reuse.dlis', 'rb').read() != refs[(lo, hi)]:
+                    chk.fail('reused-source:differs', case, f'write #{wn + 1} from the structured array used before differs from '
+                                                            f'the file of the pre-sliced rows [{lo},{hi})')
+                    break
     finally:
         shutil.rmtree(tmp, ignore_errors=True)
     return finish(chk, bres, THEOREMS,
